@@ -255,3 +255,41 @@ def bind_args(call, params):
             return None
         b[k.arg] = k.value
     return b
+
+
+def lin_ast(e, acc, acc_len_atom="LEN"):
+    """Linear form of an integer expression over names and len(<acc>): ({atom: coef}, const); None if not linear.
+    Atoms: a variable name, or "LEN" for len(acc)."""
+    e = unawait(e)
+    if isinstance(e, ast.Constant) and isinstance(e.value, int) and not isinstance(e.value, bool):
+        return {}, e.value
+    if isinstance(e, ast.Name):
+        return {e.id: 1}, 0
+    if isinstance(e, ast.Call) and isinstance(e.func, ast.Name) and e.func.id == "len" and len(e.args) == 1 and not e.keywords:
+        a0 = unawait(e.args[0])
+        if acc is not None and varkey(a0) == acc:
+            return {acc_len_atom: 1}, 0
+        k = varkey(a0)
+        return ({"len(%s)" % k: 1}, 0) if k else None
+    if isinstance(e, ast.UnaryOp) and isinstance(e.op, ast.USub):
+        r = lin_ast(e.operand, acc, acc_len_atom)
+        return None if r is None else ({k: -v for k, v in r[0].items()}, -r[1])
+    if isinstance(e, ast.BinOp) and isinstance(e.op, (ast.Add, ast.Sub)):
+        x, y = lin_ast(e.left, acc, acc_len_atom), lin_ast(e.right, acc, acc_len_atom)
+        if x is None or y is None:
+            return None
+        sg = 1 if isinstance(e.op, ast.Add) else -1
+        out = dict(x[0])
+        for k, v in y[0].items():
+            out[k] = out.get(k, 0) + sg * v
+        return {k: v for k, v in out.items() if v}, x[1] + sg * y[1]
+    return None
+
+
+def lin_add(a, b, sign=1):
+    out = dict(a[0])
+    for k, v in b[0].items():
+        out[k] = out.get(k, 0) + sign * v
+    return {k: v for k, v in out.items() if v}, a[1] + sign * b[1]
+
+
